@@ -115,7 +115,8 @@ package wal
 //@   ensures[C10] old(rdpos[r.reader]) <= rdpos[r.reader] && rdpos[r.reader] <= rdlen[r.reader]
 //@   ensures[C10] (err == io.EOF || err == io.ErrUnexpectedEOF) ==> rdpos[r.reader] == rdlen[r.reader]
 //@   ensures[C10] rdlen[r.reader] - old(rdpos[r.reader]) < 7 ==> err == io.EOF || err == io.ErrUnexpectedEOF
-//@   ensures[C10] err == io.EOF ==> rdlen[r.reader] == old(rdpos[r.reader]) || rdlen[r.reader] == old(rdpos[r.reader]) + 7
+// a clean end is reported only on a record boundary: a record cut anywhere after its first byte is a torn tail
+//@   ensures[C10] err == io.EOF ==> rdlen[r.reader] == old(rdpos[r.reader])
 //@   ensures[C09,C10] err == nil ==> rdpos[r.reader] == old(rdpos[r.reader]) + 7 + len(result0.data)
 //@   ensures[C09,C10] err == nil ==> RecordAt(rdbytes[r.reader], old(rdpos[r.reader]), result0.recordType, result0.data)
 //@   ensures[C09] rdlen[r.reader] - old(rdpos[r.reader]) >= 7 && rdlen[r.reader] - old(rdpos[r.reader]) >= 7 + sle16(r.reader, old(rdpos[r.reader])+4) && 1 <= rdbytes[r.reader][old(rdpos[r.reader])+6] && rdbytes[r.reader][old(rdpos[r.reader])+6] <= 4 && crc32(sbs(r.reader, old(rdpos[r.reader])+7, sle16(r.reader, old(rdpos[r.reader])+4))) == sle32(r.reader, old(rdpos[r.reader])) ==> err == nil
